@@ -261,6 +261,9 @@ static void dump_state(void) {
             Janet av = janet_wrap_abstract(ch);
             Janet cn = cfun_channel_count(1, &av), fu = cfun_channel_full(1, &av), ca = cfun_channel_capacity(1, &av);
             lput(" n=%d/%d/%d", (int) janet_unwrap_integer(cn), janet_truthy(fu) ? 1 : 0, (int) janet_unwrap_integer(ca));
+            /* geometry of the real item ring: the model prints that of the ring it got by replaying the same
+               janet_q_push / janet_q_pop calls (Ev/Refine.lean: stepOps, replayR) */
+            lput(" g=%d/%d/%d", ch->items.head, ch->items.tail, ch->items.capacity);
         }
     }
     lput("|q=");
